@@ -525,4 +525,50 @@ theorem stAfterR_bound (cfg : Cfg ℝ) (hr : cfg.reset = false) (hp : cfg.propCo
     exact ⟨s1.symm, s2, s3⟩
 
 
+/-! ### closed forms of the recursively defined bounds -/
+
+/-- `(1+ε)^n − 1 ≤ 2nε` as long as `2nε ≤ 1` -/
+theorem pow_one_add_le (ε : ℝ) (hε : 0 ≤ ε) : ∀ n : Nat, 2 * (n : ℝ) * ε ≤ 1 → (1 + ε) ^ n ≤ 1 + 2 * (n : ℝ) * ε := by
+  intro n
+  induction n with
+  | zero => intro _; simp
+  | succ n ih =>
+    intro h
+    have hn : (0:ℝ) ≤ (n : ℝ) := Nat.cast_nonneg n
+    push_cast at h ⊢
+    have h' : 2 * (n : ℝ) * ε ≤ 1 := by nlinarith
+    have := ih h'
+    have h1 : (0:ℝ) ≤ 1 + ε := by linarith
+    calc (1 + ε) ^ (n + 1) = (1 + ε) ^ n * (1 + ε) := pow_succ _ _
+      _ ≤ (1 + 2 * (n : ℝ) * ε) * (1 + ε) := mul_le_mul_of_nonneg_right this h1
+      _ ≤ 1 + 2 * ((n : ℝ) + 1) * ε := by nlinarith [mul_nonneg hn hε, mul_nonneg (mul_nonneg hn hε) hε]
+
+/-- the factor `K = 3η + 3η²`, `η = (1+ε)^N − 1`, is at most `12·N·ε` when `2Nε ≤ 1` -/
+theorem K_closed (ε : ℝ) (hε : 0 ≤ ε) (N : Nat) (h : 2 * (N : ℝ) * ε ≤ 1) :
+    3 * ((1 + ε) ^ N - 1) + 3 * ((1 + ε) ^ N - 1) ^ 2 ≤ 12 * (N : ℝ) * ε := by
+  have h1 := pow_one_add_le ε hε N h
+  have h0 : (0:ℝ) ≤ (1 + ε) ^ N - 1 := by
+    have : (1:ℝ) ≤ (1 + ε) ^ N := one_le_pow₀ (by linarith)
+    linarith
+  have hη : (1 + ε) ^ N - 1 ≤ 2 * (N : ℝ) * ε := by linarith
+  have hη1 : (1 + ε) ^ N - 1 ≤ 1 := le_trans hη h
+  nlinarith
+
+/-- `ΣA` in closed form: `Σ_{i<n} |dt_{m+i}|·‖a_{m+i}‖` -/
+theorem sumA_closed (eps : ℝ) (g : Vec3 ℝ) (R0 : Quat ℝ) (fr : Nat → Frame ℝ) (m n : Nat) :
+    sumA eps g R0 fr m n = ∑ i ∈ Finset.range n, |(fr (m + i)).dt| * (aSeq eps g R0 fr (m + i)).norm := by
+  induction n with
+  | zero => simp [sumA]
+  | succ n ih => rw [Finset.sum_range_succ, ← ih]; rfl
+
+/-- `ΣP` in closed form: `Σ_{i<n} (|dt_i|·Σ_{l<i}|dt_l|‖a_l‖ + ½ dt_i²‖a_i‖)` -/
+theorem sumP_closed (eps : ℝ) (g : Vec3 ℝ) (R0 : Quat ℝ) (fr : Nat → Frame ℝ) (m n : Nat) :
+    sumP eps g R0 fr m n = ∑ i ∈ Finset.range n, (|(fr (m + i)).dt| *
+        (∑ l ∈ Finset.range i, |(fr (m + l)).dt| * (aSeq eps g R0 fr (m + l)).norm)
+      + 1 / 2 * ((fr (m + i)).dt * (fr (m + i)).dt) * (aSeq eps g R0 fr (m + i)).norm) := by
+  induction n with
+  | zero => simp [sumP]
+  | succ n ih => rw [Finset.sum_range_succ, ← ih, ← sumA_closed]; simp only [sumP]; ring
+
+
 end PP.Imu
